@@ -11,7 +11,7 @@ redirect file(s) if given, else nowhere; otherwise to the main output; no later 
 """
 from harness.e2_common import e2_jobs, e2_run_job, e2_replay
 from harness import pipeline_common as pc
-from harness.pipeline_common import Spec, combine
+from harness.pipeline_common import Spec
 
 from cutadapt.predicates import (TooShort, TooLong, TooManyN, TooManyExpectedErrors, TooHighAverageErrorRate,
                                  CasavaFiltered, IsTrimmed, IsUntrimmed)
@@ -209,7 +209,7 @@ def _verdict(spec, built, records, f1, f2, thr):
     writer, written = log[0]
     if writer.paths != dest or writer.interleaved != (spec.out == "interleaved"):
         return "written to %r instead of %r (%s)" % (writer.paths, dest, what)
-    if len(written) != len(records) or any(x is not y for x, y in zip(written, records)):
+    if len(written) != len(records) or any(not (x is y or x == y) for x, y in zip(written, records)):
         return "the writer did not receive the processed read (pair)"
     return OK
 
